@@ -245,6 +245,28 @@ def c16_meta(R):
         r2, exc2 = compile_with(src, ld)
         R.check(f"C16.meta.duplicate-definition[{lab}]", "nsl.types::Scope.RegisterFunction", r2 is None,
                 detail=f"`price(int) -> int` is defined twice ({lab}) and called, but the program was accepted:\n{src}")
+    # ... also when nothing calls it (nothing ranks the candidates then): one definition must not silently replace the other
+    for lab, src in (("imported+local,uncalled", 'import "pricing";\nfunction price(int a) -> int { return (a * 3); }\nexport function total(int x) -> int { return x; }'),
+                     ("one-module,uncalled", 'function price(int a) -> int { return (a * 2); }\nfunction price(int a) -> int { return (a * 3); }\nexport function total(int x) -> int { return x; }'),
+                     ("one-module,other-parameter-name,uncalled", 'function price(int a) -> int { return (a * 2); }\nfunction price(int b) -> int { return (b * 3); }\nexport function total(int x) -> int { return x; }')):
+        r2, exc2 = compile_with(src, ld)
+        R.check(f"C16.meta.duplicate-definition[{lab}]", "nsl.types::Scope.RegisterFunction", r2 is None,
+                detail=f"`price(int) -> int` is defined twice ({lab}); the program was accepted and one definition replaced the other:\n{src}",
+                replay=script("""
+                    import io, contextlib
+                    from nsl import Compiler
+                    src = 'function price(int a) -> int { return (a * 2); }\\nfunction price(int a) -> int { return (a * 3); }\\nexport function total(int x) -> int { return x; }'
+                    try:
+                        with contextlib.redirect_stdout(io.StringIO()):
+                            r = Compiler.Compiler().Compile(src)
+                    except BaseException as e:
+                        r = None; print('rejected:', type(e).__name__, str(e)[:100])
+                    if r is not None:
+                        print(src); print('accepted; functions of the module:', sorted(r.IRModule.Functions)); print('REPLAY-CONFIRMED')
+                    """))
+    # overloads that differ in a parameter type are NOT duplicates
+    r3, exc3 = compile_with('function price(int a) -> int { return (a * 2); }\nfunction price(float a) -> int { return 7; }\nexport function total(int x) -> int { return price(x); }', ld)
+    R.check("C16.meta.duplicate-definition[overloads-are-not-duplicates]", "nsl.types::Scope.RegisterFunction", r3 is not None, detail=f"two overloads with different parameter types were rejected: {exc3!r}")
     for name, (src, callee) in mains.items():
         r, exc = compile_with(src, ld)
         rp = None
